@@ -1157,11 +1157,32 @@ PRIM_TAGS = {'int': 'int', 'str': 'str', 'bool': 'bool', 'enum': 'enum', 'date':
              'dur': 'dur', 'bytes': 'bytes'}
 
 
+class AmbiguousEnum(Exception):
+    pass
+
+
 def app_json_x(b, app):
     """app_json + what the member-kind layer needs: the module namespace customised attribute types ended up in
     (per primitive family) and the xml_choice_group table"""
     from spyne.model.complex import ComplexModelBase, XmlModifier
     A = app_json(b, app)
+    # Enum classes that are reachable only through an XmlAttribute / XmlData member (the interface files an XmlData
+    # class under the key of the type it wraps), and customised copies of an Enum (min_occurs=1 ...) that ended up in
+    # another namespace than the original: the model knows ONE (namespace, name) per value list (`App.enumKeys`)
+    from spyne.model.enum import EnumBase
+    seen = dict((tuple(names), (ns, tn)) for names, ns, tn in A['enums'])
+    used = {}
+    for key, cls in sorted(app.interface.classes.items()):
+        if key.startswith('{') and isinstance(cls, type) and issubclass(cls, ComplexModelBase):
+            for k, v in cls.get_flat_type_info(cls).items():
+                v = v.type if issubclass(v, XmlModifier) else v
+                if issubclass(v, EnumBase):
+                    used.setdefault(tuple(v.__values__), set()).add((v.get_namespace(), v.get_type_name()))
+    for names, keys in used.items():
+        if len(keys) > 1:
+            raise AmbiguousEnum('copies of Enum%r in %r' % (names, sorted(keys)))
+        seen[names] = list(keys)[0]
+    A['enums'] = [[list(names), ns, tn] for names, (ns, tn) in sorted(seen.items())]
     mod, choice = {}, []
     for key, cls in sorted(app.interface.classes.items()):
         if not key.startswith('{') or not (isinstance(cls, type) and issubclass(cls, ComplexModelBase)):
@@ -1209,6 +1230,31 @@ def xmldata_witness_universe():
             'methods': [{'name': 'm0', 'args': [['a0', {'k': 'ref', 'cls': 'Money', 'o': occ()}]], 'rets': []}]}
 
 
+def _admits_empty(p):
+    return not p['min'] and (p['pat'] is None or p['pat']['min'] == 0) and not p.get('values')
+
+
+def directed_kind_universes():
+    """fixed shapes the random universes hit rarely: a choice group that is interrupted by a plain member and taken up
+    again under the same name (by_id | note | by_name), two different groups next to each other, a group of a subclass
+    after the members of its parent, a required attribute next to a choice"""
+    occ = lambda **kw: dict({'nillable': True, 'min': 0, 'max': 1}, **kw)
+    st = lambda **kw: {'k': 'prim', 'p': {'t': 'str', 'min': 0, 'max': None, 'pat': None, 'values': []}, 'o': occ(**kw)}
+    it = lambda **kw: {'k': 'prim', 'p': _prim('int'), 'o': occ(**kw)}
+    u1 = {'tns': 'urn:k1', 'idx': 6990, 'classes': [
+        {'name': 'K', 'ns': 'urn:k1', 'base': None, 'depth': 0,
+         'own': [['by_id', it(choice='key')], ['note', st()], ['by_name', st(choice='key')], ['tail', st()]]}],
+        'methods': [{'name': 'm0', 'args': [['a0', {'k': 'ref', 'cls': 'K', 'o': occ()}]], 'rets': [{'k': 'ref', 'cls': 'K', 'o': occ()}]}]}
+    u2 = {'tns': 'urn:k2', 'idx': 6991, 'classes': [
+        {'name': 'P', 'ns': 'urn:k2a', 'base': None, 'depth': 0,
+         'own': [['p1', st(choice='g')], ['p2', it(choice='g')], ['id', dict(st(min=1), mk='attribute')]]},
+        {'name': 'Q', 'ns': 'urn:k2', 'base': 'P', 'depth': 1,
+         'own': [['q1', st(choice='g')], ['q2', st(choice='h')], ['q3', it(choice='h')], ['mid', it()], ['q4', st(choice='g')]]}],
+        'methods': [{'name': 'm0', 'args': [['a0', {'k': 'ref', 'cls': 'Q', 'o': occ()}], ['a1', {'k': 'ref', 'cls': 'P', 'o': occ(max=3)}]],
+                     'rets': [{'k': 'ref', 'cls': 'Q', 'o': occ()}]}]}
+    return [u1, u2]
+
+
 def attr_universe(rng, idx, data_facets=False):
     """xmlblock's attribute / XmlData universes, plus xml_choice_group on some optional element members (and, where
     the generator defines their types, customised primitives as XmlData)"""
@@ -1216,7 +1262,14 @@ def attr_universe(rng, idx, data_facets=False):
     for c in u['classes']:
         for k, t in c['own']:
             if data_facets and t.get('mk') == 'data' and rng.random() < 0.5:
-                t['p'] = xb.gen_prim(rng, facets=True)
+                # XSD cannot say "the text may be missing": an absent (None) XmlData value is written as empty text, so it
+                # is schema-conformant only when '' is a literal of the type. xmlblock's gen_mod never leaves out the text of
+                # a non-string type; for strings the customisation must therefore keep '' (no min_len, a pattern that
+                # matches '', no values)
+                p = xb.gen_prim(rng, facets=True)
+                while p['t'] == 'str' and not _admits_empty(p):
+                    p = xb.gen_prim(rng, facets=True)
+                t['p'] = p
     for c in u['classes']:
         cand = [t for k, t in c['own'] if not t.get('mk') and t['o']['min'] == 0]
         if len(cand) >= 1 and rng.random() < 0.45:
@@ -1412,12 +1465,64 @@ def model_parallel(ctx, Q, k=4):
     return answers
 
 
+XSI_NIL_ATTR = '{http://www.w3.org/2001/XMLSchema-instance}nil'
+
+
+def bare_universe(rng, idx):
+    """one or two `_body_style='bare'` methods whose single argument is a class — sometimes a class of a namespace
+    nothing else in the application refers to — next to a wrapped method"""
+    u = xb.gen_universe(rng, idx, n_classes=rng.randint(2, 4), inherit=0.3, n_methods=1)
+    occ = lambda **kw: dict({'nillable': True, 'min': 0, 'max': 1}, **kw)
+    if rng.random() < 0.7:
+        u['classes'].append({'name': 'B%d' % idx, 'ns': 'urn:only%d' % idx, 'base': None, 'depth': 0,
+                             'own': [[k, {'k': 'prim', 'p': xb.gen_prim(rng), 'o': xb.gen_occ(rng, 'field')}]
+                                     for k in rng.sample(['p', 'q', 'r'], rng.randint(1, 2))]})
+    usable = [c['name'] for c in u['classes'] if c['own']]      # spyne refuses a class without own members as bare parameter
+    rng.shuffle(usable)
+    if u['classes'][-1]['name'].startswith('B'):
+        usable = [u['classes'][-1]['name']] + [n for n in usable if n != u['classes'][-1]['name']]
+    for i, cname in enumerate(usable[:rng.randint(1, 2)]):
+        rets = [{'k': 'ref', 'cls': rng.choice(usable), 'o': occ()}] if rng.random() < 0.5 else []
+        u['methods'].append({'name': 'x%d' % i, 'args': [['a0', {'k': 'ref', 'cls': cname, 'o': occ()}]], 'rets': rets, 'style': 'bare'})
+    return u
+
+
+def methods_table(app):
+    """the request / response elements `add_missing_elements_for_methods` declares, and the classes whose registered
+    object is a message copy (`sub_name` set): input of `Schema.withMethods`"""
+    from spyne.model.complex import ComplexModelBase
+    elems, noelem = [], []
+    for key, descs in sorted(app.interface.service_method_map.items()):
+        for msg in (descs[0].in_message, descs[0].out_message):
+            if msg is None:
+                continue
+            if not issubclass(msg, ComplexModelBase):
+                raise Unmodelled('a method message that is not a class')
+            elems.append([msg.Attributes.sub_name or msg.get_type_name(), msg.get_namespace(), msg.get_type_name()])
+    # the documents are built from every class object among interface.deps (keys and values): a class has an element of
+    # its own name iff some object of it without `sub_name` is among them (a bare method registers a copy that has one)
+    objs = set(app.interface.deps)
+    for vs in app.interface.deps.values():
+        objs |= set(vs)
+    own, any_ = set(), set()
+    for cls in objs:
+        if isinstance(cls, type) and issubclass(cls, ComplexModelBase):
+            k = (cls.get_namespace(), cls.get_type_name())
+            any_.add(k)
+            if cls.Attributes.sub_name is None:
+                own.add(k)
+    noelem = [list(k) for k in sorted(any_ - own)]
+    return {'elems': elems, 'noElem': noelem}
+
+
 # ====================================================================================== run
 def classify_compile_error(msg):
     if "}enumeration'" in msg and 'is not a valid value' in msg:
         return 'enumeration-literal-not-in-lexical-space'
     if 'is not a valid value of the atomic type' in msg:
         return 'facet-outside-base-type'
+    if 'not indicated by an import statement' in msg:
+        return 'reference-without-import'
     if 'does not resolve to a(n) simple type definition' in msg:
         return 'simple-type-not-defined'
     if "The facet 'enumeration' is not allowed" in msg:
@@ -1744,8 +1849,10 @@ def run(ctx):
             ask(dict(op='verdicts', ty=in_ty, docs=docs, x=fx, **A), impls, 'verdicts', {'universe': u, 'method': mname, 'docs': docs})
     # ---------------------------------------------------------------- member kinds: attributes, XmlData, choice groups
     n_attr = 120 if ctx.thorough else 20
-    for ui in range(n_attr):
-        u = attr_universe(rng, 7000 + ui, f6['dataTypeDefined'])
+    dir_kinds = directed_kind_universes()
+    for ui in range(n_attr + len(dir_kinds)):
+        is_dir_kind = ui >= n_attr
+        u = copy.deepcopy(dir_kinds[ui - n_attr]) if is_dir_kind else attr_universe(rng, 7000 + ui, f6['dataTypeDefined'])
         groups = groups_of(u)
         with warnings.catch_warnings():
             warnings.simplefilter('ignore')
@@ -1757,7 +1864,13 @@ def run(ctx):
         kinds_in = set(t.get('mk') or ('choice' if t['o'].get('choice') else 'element') for c in u['classes'] for _, t in c['own'])
         for k in sorted(kinds_in):
             ctx.hit('kinds-universe:has-%s' % k)
-        A = app_json_x(b, app0)
+        try:
+            A = app_json_x(b, app0)
+        except AmbiguousEnum:
+            # which namespace a customised copy of an Enum class lands in depends on the order the interface is walked in;
+            # the model takes one namespace per Enum as input. Universes with two are left out (counted).
+            ctx.hit('skip:enum-copies-in-two-namespaces')
+            continue
         try:
             canon = canon_real_schema_x(real_schema(app0)[1], app0.interface.nsmap)
         except Unmodelled as e:
@@ -1778,7 +1891,7 @@ def run(ctx):
         for mname in sorted(b.methods):
             key, in_ty, out_ty = b.methods[mname]
             valid_docs = []
-            for ci in range(per_method):
+            for ci in range(per_method * (4 if is_dir_kind else 1)):
                 call = xb.gen_call(rng, b, mname)
                 if call is None:
                     ctx.hit('skip:unsatisfiable-facets')
@@ -1865,6 +1978,89 @@ def run(ctx):
                 ctx.hit('doc-kinds:%s:%s' % (tag.split(':')[0], 'accept' if lx else 'reject'))
             if docs:
                 ask(dict(op='validA', docs=docs, **A), impls, 'validA', {'universe': u, 'method': mname, 'docs': docs})
+    # ---------------------------------------------------------------- bare methods: the message IS the argument class
+    n_bare = 60 if ctx.thorough else 10
+    for ui in range(n_bare):
+        u = bare_universe(rng, 8000 + ui)
+        with warnings.catch_warnings():
+            warnings.simplefilter('ignore')
+            b = build_classes(u)
+            app0, _ = xb.make_app(b, 'xml', None)
+            xb.finish_built(b, app0)
+        A = dict(app_json(b, app0), methods=methods_table(app0))
+        ok, vs = compile_real(app0)
+        ctx.case({'universe': u['idx'], 'bare': True, 'classes': [(c['name'], c['ns'], c['base']) for c in u['classes']]}, True)
+        ctx.hit('universe:bare-methods')
+        if any(e[1] != u['tns'] for e in A['methods']['elems']):
+            ctx.hit('bare:message-class-in-another-namespace')
+        try:
+            canon = real_schema_canon(app0)
+        except Unmodelled as e:
+            raise core.Infra('the real schema uses a construct outside the modelled subset: %s' % e)
+        ask(dict(op='gen', **A), (canon, ok), 'gen', {'universe': u, 'bare': True})
+        if not ok:
+            kind = classify_compile_error(vs)
+            ctx.hit('compile-refused:' + kind)
+            ctx.finding('compile:' + kind, 'the schema spyne publishes for a universe with bare methods is refused by libxml2 '
+                        '(validator=lxml cannot be set up): %s' % vs, {'kind': 'compile', 'universe': u, 'error': vs})
+            continue
+        with warnings.catch_warnings():
+            warnings.simplefilter('ignore')
+            apps = dict((proto, _make_app(b, proto, 'lxml', False)) for proto in xb.PROTOS)
+        vschema = apps['xml'][0].in_protocol.validation_schema
+        for m in u['methods']:
+            if m.get('style') != 'bare':
+                continue
+            mname = m['name']
+            key, in_ty, out_ty = b.methods[mname]
+            docs, impls = [], []
+            for ci in range(per_method + 1):
+                v = xb.gen_one(rng, in_ty, none_p=0)
+                rv = xb.gen_one(rng, out_ty, none_p=0) if m['rets'] else None
+                if v is None or not xb.py_conforms_one(in_ty, v) or (rv is not None and not xb.py_conforms_one(out_ty, rv)):
+                    ctx.hit('skip:unsatisfiable-facets')
+                    continue
+                b.ret[mname] = xb.to_native(b, out_ty, rv) if m['rets'] else None
+                req = xb.ref_encode_one(b, in_ty, v, u['tns'], mname, u['tns'])
+                for proto in xb.PROTOS:
+                    app, server = apps[proto]
+                    replay = {'kind': 'emit-bare', 'universe': u, 'proto': proto, 'method': mname, 'arg': v, 'ret': rv}
+                    ctx.cov['traces_validated_against_impl'] += 1
+                    ctx.hit('emit-bare:%s' % proto)
+                    ctx.case({'u': u['idx'], 'm': mname, 'p': proto, 'bare': v, 'r': rv}, leaves(v) >= 1)
+                    # spyne's client cannot call bare methods: the request is the reference encoding of the argument as
+                    # the element <tns:method>; T3 is on the RESPONSE the real server emits (and on the hook's verdict)
+                    data = xb.to_bytes(xb.wrap_envelope(proto, [req]))
+                    r = xb.run_request(b, server, data)
+                    if r.fault and 'SchemaValidationError' in r.fault:
+                        ctx.finding('bare-request-rejected:%s' % invalid_reason(vschema, body_el(proto, data, app.in_protocol)),
+                                    'a %s request that carries a conformant instance of the argument class as the body element of a '
+                                    'bare method is rejected by the schema hook (%s)' % (proto, r.fault), dict(replay, request=data.decode('utf-8', 'replace')))
+                        continue
+                    if r.fault or r.crash:
+                        ctx.hit('emit:request-not-served:%s' % (r.fault or r.crash))
+                        continue
+                    resp_body = body_el(proto, r.out)
+                    if resp_body is None or not vschema.validate(resp_body):
+                        fid = 'emitted-invalid:response:%s' % invalid_reason(vschema, resp_body)
+                        if not m['rets'] and resp_body is not None and resp_body.get(XSI_NIL_ATTR) is not None:
+                            fid = 'emitted-invalid:bare-empty-response-nil'
+                        ctx.finding(fid, 'the %s response spyne emits for a bare method is invalid against its own schema (%s)' % (
+                                        proto, last_error(vschema, resp_body)), dict(replay, response=(r.out or b'').decode('utf-8', 'replace')))
+                        continue
+                    if proto == 'xml':
+                        nd = xb.node_of(body_el(proto, data, app.in_protocol))
+                        cand = [(nd, 'emitted')] + [x for x in (mutate(rng, b, in_ty, nd) for _ in range(3)) if x is not None]
+                        for d2, tag in cand:
+                            parsed = xb.parse_like_spyne(xb.to_bytes(d2), app.in_protocol)
+                            if parsed is None:
+                                continue
+                            seen = xb.node_of(parsed)
+                            docs.append(seen)
+                            impls.append({'lxml': bool(vschema.validate(parsed)), 'tag': tag, 'indom': doc_in_domain(b, in_ty, seen, {})})
+                            ctx.hit('doc-bare:%s' % tag.split(':')[0].split('+')[0])
+            if docs:
+                ask(dict(op='valid', docs=docs, **A), impls, 'validM', {'universe': u, 'method': mname, 'docs': docs})
     # ---------------------------------------------------------------- compare with the model
     answers = model_parallel(ctx, Q)
     wf_of, same_of = {}, {}
@@ -1902,11 +2098,19 @@ def run(ctx):
                 ctx.disagree('wf-implies-documents', {'universe': case['universe']}, True,
                              [mod['set']['prefixesOk'], mod['set']['importsHaveDocs']])
             ctx.hit('universe-wf:%s' % mod['wf'])
-            if mod['wf'] and not (ok and mod['compiles'] and mod['resolvesOk']):
+            if mod['wf'] and mod['methodsOk'] and not (ok and mod['compiles'] and mod['resolvesOk']):
                 # theorems gen_compiles / closed_of_wf evaluated on this universe
                 ctx.disagree('wf-implies-compiles', {'universe': case['universe']}, ok, [mod['compiles'], mod['resolvesOk']])
             if ok and not mod['wf'] and 'label' not in case:
                 ctx.hit('universe-outside-wf')
+        elif op == 'validM':
+            for doc, im, mo in zip(case['docs'], impl, mod['ok']):
+                if im['indom']:
+                    if mo != im['lxml']:
+                        ctx.disagree('valid-bare', {'kind': 'doc-bare', 'universe': case['universe'], 'method': case['method'], 'doc': doc,
+                                                    'tag': im['tag'], 'observed': im, 'model': mo}, im['lxml'], mo)
+                else:
+                    ctx.hit('doc-outside-lexical-domain')
         elif op == 'genA':
             canon, ok = impl
             if canon is None:
@@ -2081,6 +2285,32 @@ def replay(ctx, obj):
         okr = rb is not None and bool(vschema.validate(rb))
         print('response valid against spyne\'s schema:', okr, '' if okr else last_error(vschema, rb))
         return 0 if (okr and not r.fault) else 1
+    if kind == 'emit-bare':
+        proto, mname = obj['proto'], obj['method']
+        app, server = _make_app(b, proto, 'lxml', False)
+        key, in_ty, out_ty = b.methods[mname]
+        b.ret[mname] = xb.to_native(b, out_ty, obj['ret']) if obj.get('ret') is not None else None
+        data = xb.to_bytes(xb.wrap_envelope(proto, [xb.ref_encode_one(b, in_ty, obj['arg'], u['tns'], mname, u['tns'])]))
+        print('request :', data.decode('utf-8', 'replace'))
+        r = xb.run_request(b, server, data)
+        print('server  : fault=%s crash=%s' % (r.fault, r.crash))
+        print('response:', (r.out or b'').decode('utf-8', 'replace'))
+        vschema = app.in_protocol.validation_schema
+        rb = body_el(proto, r.out) if r.out and not r.fault else None
+        okr = rb is not None and bool(vschema.validate(rb))
+        print('response valid against spyne\'s schema:', okr, '' if okr else last_error(vschema, rb))
+        return 0 if (okr and not r.fault) else 1
+    if kind == 'doc-bare':
+        mname = obj['method']
+        app_l, server_l = _make_app(b, 'xml', 'lxml', False)
+        data = xb.to_bytes(obj['doc'])
+        print('document:', data.decode('utf-8', 'replace'))
+        parsed = xb.parse_like_spyne(data, app_l.in_protocol)
+        vs_ = app_l.in_protocol.validation_schema
+        lx = bool(vs_.validate(parsed))
+        print('lxml verdict:', lx, '' if lx else last_error(vs_, parsed))
+        print('model       :', ctx.model([dict(op='valid', docs=[xb.node_of(parsed)], methods=methods_table(app0), **app_json(b, app0))])[0])
+        return 0
     if kind == 'doc':
         mname = obj['method']
         key, in_ty, out_ty = b.methods[mname]
